@@ -49,6 +49,9 @@ type Case struct {
 	// Empty (route tx): the target is a database that exists at position 0 (created by the halt request itself);
 	// every non-snapshot file must be refused there too.
 	Empty bool `json:"empty,omitempty"`
+	// Dropped (route tx): the target database was deleted on the primary: it stands at (t+1, empty checksum) with no
+	// page. Files that start at TXID 1 do not extend that position either.
+	Dropped bool `json:"dropped,omitempty"`
 }
 
 // digestName is the database the digest looks at (one case per worker call).
@@ -150,6 +153,10 @@ func offered(kind string, img *oracle.Image, t, c uint64, cut int) (data []byte,
 		return b[:cuts[cut%len(cuts)]], false
 	case "garbage":
 		return bytes.Repeat([]byte{0x5a}, 700), false
+	case "snapshot-whole-1":
+		return snapshotLTX(next, 1), false
+	case "snapshot-whole-next":
+		return snapshotLTX(next, t+1), false
 	case "snapshot-with-prechecksum":
 		b := snapshotLTX(next, t+1)
 		b[40] = 0x80 // pre-apply checksum field of a snapshot must be zero
@@ -251,6 +258,13 @@ func run1(t *testing.T, c Case) (res Result) {
 				return
 			}
 			img := r.Intended
+			if c.Dropped {
+				if err := N.M.Remove("db"); err != nil {
+					res.Harness = "drop: " + err.Error()
+					return
+				}
+				lab.Settle(200 * time.Millisecond)
+			}
 			p0 := N.DB("db").Pos()
 			tt, cc := uint64(p0.TXID), uint64(p0.PostApplyChecksum)
 			data, mustAccept := offered(c.File, img, tt, cc, c.Cut)
@@ -470,6 +484,11 @@ func TestCheck(t *testing.T) {
 	}
 	for _, k := range []string{"valid", "min-txid-gap", "min-txid-lower-max-next"} {
 		cases = append(cases, Case{Route: "tx", File: k, Empty: true})
+	}
+	for _, wal := range []bool{false, true} {
+		for _, k := range []string{"snapshot-whole-1", "snapshot-whole-next", "min-txid-gap", "wrong-prechecksum"} {
+			cases = append(cases, Case{Route: "tx", File: k, WAL: wal, Dropped: true})
+		}
 	}
 	pool := vlib.NewPool()
 	pool.CaseTimeout = 60 * time.Second
